@@ -343,3 +343,107 @@ func init() {
 		},
 	})
 }
+
+func init() {
+	register(&Rule{
+		Name: "stream-offences-stay-on-the-stream", Props: []string{"C09"}, Engine: "SSA", Floor: 3,
+		Doc: "offences RFC 7540 defines as stream errors are answered on the stream: a WINDOW_UPDATE with an increment of 0 that names a stream (6.9), a second HEADERS block that does not end the stream (8.1: malformed request), a stream that depends on itself (5.3.1). The class of the error value each site produces is read from the code (reset-class or GOAWAY-class)",
+		Run: func(p *Prog, r *Out) {
+			type site struct {
+				fn, cond, what, rfc string
+			}
+			for _, s := range []site{
+				{"(*serverConn).handleFrame", "win==0", "a WINDOW_UPDATE with increment 0 on a stream", "6.9"},
+				{"(*serverConn).handleHeaderFrame", "!fr.Flags().Has(FlagEndStream)", "trailers that do not end the stream", "8.1"},
+				{"(*serverConn).handleHeaderFrame", "headerFrame,ok:=fr.Body().(*Headers);ok&&headerFrame.Stream()==strm.ID()", "a HEADERS frame that makes its stream depend on itself", "5.3.1"},
+				{"(*serverConn).handleFrame", "priorityFrame,ok:=fr.Body().(*Priority);ok&&priorityFrame.Stream()==strm.ID()", "a PRIORITY frame that makes its stream depend on itself", "5.3.1"},
+			} {
+				fd := p.decl(s.fn)
+				if fd == nil {
+					r.undecided(s.fn, "?", "no longer resolves")
+					continue
+				}
+				r.fn(s.fn)
+				class := ""
+				ast.Inspect(fd.Body, func(n ast.Node) bool {
+					ifs, ok := n.(*ast.IfStmt)
+					if !ok {
+						return true
+					}
+					c := squash(p.text(ifs.Cond))
+					if ifs.Init != nil {
+						c = squash(p.text(ifs.Init)) + ";" + c
+					}
+					if c != s.cond {
+						return true
+					}
+					if res := firstReturn(ifs.Body); len(res) == 1 {
+						if cl, _, okE := p.errorCall(res[0]); okE {
+							class = cl
+						}
+					}
+					return true
+				})
+				key := s.fn + " answers " + s.what + " on the stream"
+				switch class {
+				case "":
+					r.undecided(key, p.pos(fd.Pos()), "the test `"+s.cond+"` and the error it returns were not found")
+				case "Reset":
+					r.ok(key, p.pos(fd.Pos()), "stream error")
+				default:
+					r.bad(key, p.pos(fd.Pos()), s.fn+" answers "+s.what+" with a connection error ("+class+"): RFC 7540 s"+s.rfc+" makes it a stream error, and as a connection error one client's slip on one stream ends every other request on the connection")
+				}
+			}
+		},
+	})
+}
+
+func init() {
+	register(&Rule{
+		Name: "server-writes-have-a-standing-limit", Props: []string{"C10", "C17"}, Engine: "AST", Floor: 1,
+		Doc: "a connection error can only be answered, and the connection ended, by a goroutine that is not parked: the stream loop and the read loop both queue frames for the write loop, and with a peer that has stopped reading they park on the full queue, the stream loop with the offending frame still unread behind it. That is bounded only if the write loop's socket writes carry a limit at all times (a limit in force from the start of the connection), not merely from the moment an error has been noticed",
+		Run: func(p *Prog, r *Out) {
+			wl := p.decl("(*serverConn).writeLoop")
+			sv := p.decl("(*Server).ServeConn")
+			if wl == nil || sv == nil {
+				r.undecided("writeLoop", "?", "(*serverConn).writeLoop / ServeConn no longer resolve")
+				return
+			}
+			r.fn("(*serverConn).writeLoop", "(*Server).ServeConn", "(*serverConn).Serve")
+			// the deadline in the write loop: unconditional, or under writeLimit > 0 with writeLimit set positive before the loops start
+			uncond, cond := false, false
+			pm := p.pmFor(wl)
+			inspectCalls(wl.Body, func(c *ast.CallExpr) {
+				if !strings.HasSuffix(squash(p.text(c.Fun)), ".SetWriteDeadline") || len(c.Args) != 1 || squash(p.text(c.Args[0])) == "time.Time{}" {
+					return
+				}
+				guards := p.enclosingGuards(pm, c)
+				if len(guards) == 0 {
+					uncond = true
+				}
+				for _, g := range guards {
+					if g.Val && strings.Contains(squash(p.text(g.Cond)), "d>0") {
+						cond = true
+					}
+				}
+			})
+			preset := false
+			for _, fd := range []*ast.FuncDecl{sv, p.decl("(*serverConn).Serve")} {
+				if fd == nil {
+					continue
+				}
+				inspectCalls(fd.Body, func(c *ast.CallExpr) {
+					if squash(p.text(c.Fun)) == "sc.writeLimit.Store" {
+						preset = true
+					}
+				})
+			}
+			key := "the write loop's writes are limited from the start of the connection"
+			if uncond || (cond && preset) {
+				r.ok(key, p.pos(wl.Pos()), "a write deadline is in force for every write")
+			} else {
+				r.bad(key, p.pos(wl.Pos()), "the write loop puts a deadline on a socket write only once a connection error has set writeLimit (limitWrites, called from writeGoAway): until then a peer that stops reading parks the write loop in its write, the stream loop in enqueue on the full queue, and a connection error the stream loop would find in the frames behind it is never found, never answered, and ServeConn does not return")
+			}
+		},
+	})
+}
